@@ -614,7 +614,9 @@ def mutate(rng, data, kind=None):
             "chunk_ext_lf": b"3;a\nb\r\nabc\r\n0\r\n\r\n",
             "chunk_ext_cr": rng.choice([b"3;a\rb\r\nabc\r\n0\r\n\r\n", b"3;a=\"x\ry\"\r\nabc\r\n0\r\n\r\n", b"3\r\nabc\r\n0;z\r\r\n\r\n", b"3;\r\r\nabc\r\n0\r\n\r\n"]),
             "chunk_no_crlf": b"3\r\nabcX\r\n0\r\n\r\n",
-            "bad_trailer": rng.choice([b"0\r\nBad Trailer\r\n\r\n", b"0\r\nX : y\r\n\r\n", b"0\r\nX: a\x00\r\n\r\n", b"0\r\nX: y\n\r\n"]),
+            "bad_trailer": rng.choice([b"0\r\nBad Trailer\r\n\r\n", b"0\r\nX : y\r\n\r\n", b"0\r\nX: a\x00\r\n\r\n", b"0\r\nX: y\n\r\n",
+                                       b"0\r\n: v\r\n\r\n", b"0\r\n:\r\n\r\n", b"0\r\n X: y\r\n\r\n", b"0\r\nX: y\r\n folded\r\n\r\n", b"0\r\nX\x7f: y\r\n\r\n",
+                                       b"0\r\nX: y\r\n: v\r\n\r\n", b"3\r\nabc\r\n0\r\n(bad): v\r\n\r\n"]),
         }[kind]
         return head + body + b"GET /next HTTP/1.1\r\nHost: h\r\n\r\n", kind
     if kind == "no_host":
